@@ -123,6 +123,8 @@ def build(s, log, state):
             if fam == 'http':
                 # HttpRpc out: a binary result produced lazily, chunk by chunk
                 yield b'first-chunk-'
+                if inj['ser'] == 'late':
+                    raise Boom(SECRET)          # the producer of the body fails after its first chunk
                 yield b'second-chunk'
             else:
                 yield a
@@ -420,8 +422,8 @@ def run(s):
     rec['obs'] = log
     rec['k'] = {
         'tr': 'base' if s['cfg']['tr'] == 'null' else s['cfg']['tr'], 'rpc': s['req'].get('kind', 'rpc') == 'rpc', 'soap': s['cfg']['family'] in ('soap11', 'soap12'),
-        'done': (not any(e[0] == 'escape' for e in log)) or (s['inj'].get('fin', 'ok') in RAISING_FIN and log[-1] == ['io', 'iterclose']),
-        'mayEscape': s['inj'].get('fin', 'ok') in RAISING_FIN, 'wcloseExpected': s['inj'].get('fin', 'ok') != 'raise_closed',
+        'done': (not any(e[0] == 'escape' for e in log)) or ((s['inj'].get('fin', 'ok') in RAISING_FIN or (s['inj'].get('ser') == 'late' and s['cfg']['chunked'])) and log[-1] == ['io', 'iterclose']),
+        'mayEscape': s['inj'].get('fin', 'ok') in RAISING_FIN or (s['inj'].get('ser') == 'late' and s['cfg']['chunked']), 'wcloseExpected': s['inj'].get('fin', 'ok') != 'raise_closed',
         'nodoc': s['cfg']['tr'] == 'null',
         'fault': err is not None, 'fnOk': state['fnOk'], 'redirect': s['inj']['fn'] == 'redirect' and ['fn', 'call'] in log,
         'infault': ierr is not None,
@@ -430,7 +432,7 @@ def run(s):
         'malformed': s['req'].get('kind', 'rpc') == 'rpc' and (s['req']['class'] != 'valid' or (units and s['cfg']['family'] != 'http'
                       and min(declared_eff, s['req']['len']) < s['req']['len'] and declared_eff <= maxlen_u)),
         'code': code, 'cls': cls, 'status': status[0],
-        'statusKnown': s['inj']['ser'] == 'ok',
+        'statusKnown': True,
         'maxlen': maxlen_u if units else 1 << 20,
         'declared': declared_eff if units else len(body),
         'toolong': bool(units and declared_eff > maxlen_u and s['req'].get('kind', 'rpc') == 'rpc'),
